@@ -25,6 +25,8 @@ TEXT_POOL = [
     b"two\r\nlines", b"line one\r\nOK \"fake\"\r\nline three", b"trailing\r\n",
     b'"', b"\\", b" lead", b"x)", b"(", b"  ",
     b"t" * 1000, b"u" * 1024, ("w" * 600 + "é" * 200).encode("utf-8"), b"{12}", b"{3+}",
+    # a compile report of some 80 KB (well beyond 64 KiB), necessarily a literal
+    b"".join(b"line %d: syntax error near something\r\n" % i for i in range(2000)),
 ]
 
 
@@ -128,6 +130,7 @@ class SimServer:
         self.no_with_sasl_code = False    # a forced NO of the verdict still carries the final SASL data
         self.bye_with_referral = False    # forced BYEs carry (REFERRAL "sieve://other.example")
         self.self_check = True
+        self.quote_binary = False         # malformed on purpose: strings that are not UTF-8 are sent inside quotes
         self.fault_counts = {}
         self.shape_counts = {}
 
@@ -166,9 +169,9 @@ class SimServer:
             with ch.abs_scope(scope):
                 return ch.srv.flag("enc.lit", 1, 3)
 
-        r = Renderer(lit)
+        r = Renderer(lit, quote_binary=self.quote_binary)
         data = r.render(reply)
-        if self.self_check:
+        if self.self_check and not self.quote_binary:
             self._self_check(reply, data)
         if trunc is not None:
             data = data[:trunc]
@@ -265,7 +268,7 @@ class SimServer:
         if sasl == "bare":
             out.append((b"SASL", None))       # a SASL line without a value
         elif sasl is not None and sasl is not False:
-            out.append((b"SASL", " ".join(sasl).encode()))
+            out.append((b"SASL", b" ".join(m if isinstance(m, bytes) else m.encode() for m in sasl)))
         out.append((b"SIEVE", cfg.sieve.encode()))
         if cfg.starttls and not st.tls:
             out.append((b"STARTTLS", None))
@@ -340,6 +343,17 @@ class SimServer:
             data = r.render(Reply(None, self._cap_lines(conn)))
             rec.raw = data
             self.net.enqueue(conn, data, scope)
+        elif kind == "late":
+            # the listing is sent, but only after the client's read timeout has expired: it is still in the stream afterwards
+            seg_before = len(conn.segments)
+            dv = self.data_variation
+            self.data_variation = False
+            try:
+                self._reply(conn, rec, scope, b"OK", self._cap_lines(conn, scope), None, b"ready")
+            finally:
+                self.data_variation = dv
+            for sg in conn.segments[seg_before:]:
+                sg.delay = 1
         elif kind in ("badline-utf8", "badline-blank"):
             # a complete listing (final OK included) one line of which a client may choke on: a capability name that is
             # not UTF-8, or a line of blanks
